@@ -5,11 +5,15 @@
 // the daemon has just delivered), half-closes, and records every frame until EOF, the
 // change of the daemon's topic message counters (HTTP /stats), whether the daemon is
 // still alive and whether a concurrent well-behaved client on another connection was
-// served meanwhile.  Three daemons with small limits (max-msg-size 64, max-body-size 384,
+// served meanwhile.  Sessions (a consumer that holds messages and answers them with FIN /
+// REQ / TOUCH while subscribed and, after CLS, while closing) also record the counters of
+// the channel they consumed from.  Every case carries the generator's command list; the
+// (connection state x command x argument class) cells a case executed are printed as
+// pair=... tags and summed up in the pairs_* statistics.  Three daemons with small limits (max-msg-size 64, max-body-size 384,
 // max-rdy-count 10, max-channel-consumers 1):
 //
-//	inproc  in-process (harness/nsqdlib)          grammar / truncated / magic / long lines / interactive
-//	sub     the nsqd BINARY of the repository      mutated fields and pure garbage (a crash is observable)
+//	inproc  in-process (harness/nsqdlib)          grammar / truncated / magic / long lines / sessions
+//	sub     the nsqd BINARY of the repository      table sweep, mutated fields, sessions and pure garbage (a crash is observable)
 //	tls     in-process, --tls-required=tcp-https   every command but IDENTIFY must be refused
 package main
 
@@ -57,16 +61,19 @@ type Step struct {
 }
 
 type Input struct {
-	Class  string     `json:"class"`
-	Daemon string     `json:"daemon"`
-	Steps  []Step     `json:"steps"`
-	Intent [][3]int64 `json:"intent"` // generator's command list (index in ProtoSpec.all_cmds, messages, parameters-within-limits 0/1); null = none
-	Tags   []string   `json:"tags"`
-	// when set: after the case the channel HeldTopic/HeldChan must still hold exactly
-	// Held messages of this client (in flight or deferred)
-	Held      *int64 `json:"held,omitempty"`
-	HeldTopic string `json:"held_topic,omitempty"`
-	HeldChan  string `json:"held_chan,omitempty"`
+	Class  string `json:"class"`
+	Daemon string `json:"daemon"`
+	Steps  []Step `json:"steps"`
+	// generator's command list, one entry per command written: [index in ProtoSpec.all_cmds,
+	// n, parameters-within-limits 0/1, slot] (see J09.icmd; the slot may be omitted = 0); null = none
+	Intent [][]int64 `json:"intent"`
+	Tags   []string  `json:"tags"`
+	// when set: the channel this connection consumes from; after the case its /stats
+	// counters are recorded (messages left, in flight, deferred, requeue_count) and the
+	// monitor compares them with the effect of the accepted FIN / REQ commands.  Every
+	// publish of such a case goes to ChanTopic, which no other case uses.
+	ChanTopic string `json:"chan_topic,omitempty"`
+	ChanName  string `json:"chan_name,omitempty"`
 }
 
 // index of a command in ProtoSpec.all_cmds
@@ -92,7 +99,7 @@ var cmdNames = []string{"IDENTIFY", "FIN", "RDY", "REQ", "PUB", "MPUB", "DPUB", 
 type gen struct {
 	r      *lib.Rand
 	buf    bytes.Buffer
-	intent [][3]int64
+	intent [][]int64
 	tags   []string
 	state  int  // believed: 0 init, 1 subscribed, 2 closing
 	dead   bool // believed: the connection has been closed by a fatal error
@@ -114,12 +121,16 @@ func (g *gen) eol() {
 
 // valid: the command's parameters, names, sizes and option values are within what the
 // protocol and the daemon's limits allow (nothing about the connection state)
-func (g *gen) cmd(idx int, msgs int64, valid bool) {
+func (g *gen) cmd(idx int, msgs int64, valid bool) { g.cmdx(idx, msgs, valid, 0) }
+
+// slot: FIN / REQ / TOUCH: s+1 = the id is the one of the s-th message delivered on this
+// connection, 0 = it names no delivered message; SUB: 1 = the channel that is full
+func (g *gen) cmdx(idx int, n int64, valid bool, slot int64) {
 	v := int64(0)
 	if valid {
 		v = 1
 	}
-	g.intent = append(g.intent, [3]int64{int64(idx), msgs, v})
+	g.intent = append(g.intent, []int64{int64(idx), n, v, slot})
 	g.tag("cmd=" + cmdNames[idx])
 }
 func be(n int64) []byte {
@@ -484,11 +495,13 @@ func (g *gen) sub() {
 	g.lastStart = g.buf.Len()
 	topic, ch := g.pick(subTopics), g.pick(goodChans)
 	ok := true
-	valid := true
+	valid := !g.hbOff // a client that disabled heartbeats cannot SUB
+	slot := int64(0)
 	if g.r.Chance(8) {
 		topic, ch = bystanderTopic, bystanderChan // the one channel that is full
 		g.tag("sub=full-channel")
 		ok = false
+		slot = 1
 	}
 	line := "SUB " + topic + " " + ch
 	if g.mut() {
@@ -509,9 +522,12 @@ func (g *gen) sub() {
 		}
 		ok = false
 	}
+	if g.hbOff {
+		g.tag("sub=heartbeats-disabled")
+	}
 	g.buf.WriteString(line)
 	g.eol()
-	g.cmd(cSub, 0, valid)
+	g.cmdx(cSub, 0, valid, slot)
 	if g.state != 0 || !ok || g.hbOff {
 		g.dead = true
 	} else {
@@ -556,7 +572,9 @@ func (g *gen) auth() {
 	line := "AUTH"
 	n := 1 + g.r.Intn(10)
 	declared := int64(n)
+	valid := true // well-formed; this daemon has no auth server: E_AUTH_DISABLED
 	if g.mut() {
+		valid = false
 		switch g.r.Intn(3) {
 		case 0:
 			line = "AUTH x"
@@ -569,7 +587,7 @@ func (g *gen) auth() {
 	g.eol()
 	g.buf.Write(be(declared))
 	g.buf.Write(g.body(n))
-	g.cmd(cAuth, 0, true)
+	g.cmd(cAuth, 0, valid)
 	g.dead = true
 }
 
@@ -793,6 +811,9 @@ func genTruncated(r *lib.Rand) Input {
 	if where == "line" && len(g.intent) > 0 {
 		// the daemon never sees the last line as a command (no delimiter before EOF)
 		g.intent = g.intent[:len(g.intent)-1]
+	} else if len(g.intent) > 0 {
+		// its size field or body is incomplete: no longer a well-formed command
+		g.intent[len(g.intent)-1][2] = 0
 	}
 	return Input{Class: "truncated", Daemon: "inproc", Steps: []Step{send(b[:cut])}, Intent: g.intent, Tags: g.tags}
 }
@@ -861,93 +882,381 @@ func genGarbage(r *lib.Rand) Input {
 	return Input{Class: "garbage", Daemon: "sub", Steps: []Step{send(buf.Bytes())}, Tags: []string{fmt.Sprintf("garbage_kind=%d", kind)}}
 }
 
-// interactive: publish, subscribe, receive, then answer with the ids the daemon handed out
-func genInteractive(r *lib.Rand, k int) Input {
-	topic := fmt.Sprintf("it%d_%d", k, r.Intn(1000000))
-	g := &gen{r: r}
-	var steps []Step
-	var cur bytes.Buffer
-	flush := func() {
-		if cur.Len() > 0 {
-			steps = append(steps, send(cur.Bytes()))
-			cur.Reset()
+// ---------------------------------------------------------------- sessions
+// A session is a consumer that really holds messages: it publishes to a topic of its own,
+// subscribes, receives, and then answers with the ids the daemon handed out - in the
+// subscribed state and, after CLS, in the closing state - mixed with every other command
+// of the protocol.  All its publishes go to its own topic, so the channel's counters after
+// the case are determined by the commands that were accepted.
+type sess struct {
+	r     *lib.Rand
+	g     *gen
+	steps []Step
+	cur   bytes.Buffer
+	topic string
+	state int   // 1 subscribed, 2 closing
+	live  []int // slots delivered and not yet finished / requeued
+	dead  []int // slots finished or requeued
+	ended bool  // a command that must be answered with a fatal error has been written
+}
+
+func newSess(r *lib.Rand, topic string) *sess {
+	s := &sess{r: r, g: &gen{r: r}, topic: topic}
+	s.cur.WriteString("  V2")
+	return s
+}
+func (s *sess) flush() {
+	if s.cur.Len() > 0 {
+		s.steps = append(s.steps, send(s.cur.Bytes()))
+		s.cur.Reset()
+	}
+}
+func (s *sess) line(str string) { s.cur.WriteString(str + "\n") }
+func (s *sess) withID(pre string, slot int, post string) {
+	s.flush()
+	s.steps = append(s.steps, Step{K: "sendid", Hex: hex.EncodeToString([]byte(pre)), Slot: slot, Post: hex.EncodeToString([]byte(post + "\n"))})
+}
+func (s *sess) wait(n int) {
+	s.flush()
+	for i := 0; i < n; i++ {
+		s.live = append(s.live, len(s.live)+len(s.dead))
+		s.steps = append(s.steps, Step{K: "wait"})
+	}
+}
+func (s *sess) stName() string { return []string{"init", "sub", "closing"}[s.state] }
+func (s *sess) kill(slot int) {
+	var rest []int
+	for _, x := range s.live {
+		if x != slot {
+			rest = append(rest, x)
 		}
 	}
-	line := func(s string) { cur.WriteString(s + "\n") }
-	cur.WriteString("  V2")
-	nmsg := 2 + r.Intn(2)
-	for i := 0; i < nmsg; i++ {
-		line("PUB " + topic)
-		cur.Write(be(3))
-		cur.WriteString(fmt.Sprintf("m%02d", i))
-		g.cmd(cPub, 1, true)
-	}
-	line("SUB " + topic + " ch")
-	g.cmd(cSub, 0, true)
-	line("RDY 1")
-	g.cmd(cRdy, 0, true)
-	flush()
-	withID := func(pre string, slot int, post string) {
-		flush()
-		steps = append(steps, Step{K: "sendid", Hex: hex.EncodeToString([]byte(pre)), Slot: slot, Post: hex.EncodeToString([]byte(post + "\n"))})
-	}
-	closing := false
-	slot := 0
-	for i := 0; i < nmsg; i++ {
-		steps = append(steps, Step{K: "wait"})
-		if r.Chance(50) {
-			withID("TOUCH ", slot, "")
-			g.cmd(cTouch, 0, true)
+	s.live = rest
+	s.dead = append(s.dead, slot)
+}
+
+// publish [n] messages to the session's topic with one command
+func (s *sess) publish(kind int, n int) {
+	switch kind {
+	case cPub:
+		s.line("PUB " + s.topic)
+		s.cur.Write(be(3))
+		s.cur.WriteString("pub")
+		s.g.cmd(cPub, 1, true)
+	case cDpub:
+		s.line("DPUB " + s.topic + " 0")
+		s.cur.Write(be(4))
+		s.cur.WriteString("dpub")
+		s.g.cmd(cDpub, 1, true)
+	default:
+		s.line("MPUB " + s.topic)
+		s.cur.Write(be(int64(4 + 6*n)))
+		s.cur.Write(be(int64(n)))
+		for i := 0; i < n; i++ {
+			s.cur.Write(be(2))
+			s.cur.WriteString(fmt.Sprintf("m%d", i%10))
 		}
-		if r.Chance(30) && !closing {
-			line("CLS")
-			g.cmd(cCls, 0, true)
-			closing = true
-			g.tag("interactive=cls-then-answer")
+		s.g.cmd(cMpub, int64(n), true)
+	}
+}
+
+var longDelays = []string{"3600000", "60000", "99999999999999999999", "3600001"}
+
+// FIN / REQ / TOUCH of a message this connection holds: must succeed silently
+func (s *sess) answerHeld(c int, slot int) {
+	switch c {
+	case cFin:
+		s.withID("FIN ", slot, "")
+		s.g.cmdx(cFin, 0, true, int64(slot)+1)
+		s.kill(slot)
+	case cReq:
+		// while subscribed only with a long delay (an immediate requeue would be delivered
+		// again); after CLS nothing is delivered any more
+		d := longDelays[s.r.Intn(len(longDelays))]
+		if s.state == 2 && s.r.Chance(50) {
+			d = []string{"0", "", "00"}[s.r.Intn(3)]
 		}
-		if r.Chance(65) {
-			withID("FIN ", slot, "")
-			g.cmd(cFin, 0, true)
-			if r.Chance(50) {
-				withID("FIN ", slot, "") // a second FIN of the same message must fail, non-fatally
-				g.cmd(cFin, 0, true)
-				g.tag("interactive=double-fin")
-			}
-			if r.Chance(30) {
-				withID("TOUCH ", slot, "")
-				g.cmd(cTouch, 0, true)
-				g.tag("interactive=touch-after-fin")
-			}
-			if r.Chance(30) {
-				withID("REQ ", slot, " 0")
-				g.cmd(cReq, 0, true)
-				g.tag("interactive=req-after-fin")
-			}
+		n := int64(1)
+		if d == "0" || d == "" || d == "00" {
+			n = 0
+		}
+		s.withID("REQ ", slot, " "+d)
+		s.g.cmdx(cReq, n, true, int64(slot)+1)
+		s.kill(slot)
+	default:
+		s.withID("TOUCH ", slot, "")
+		s.g.cmdx(cTouch, 0, true, int64(slot)+1)
+	}
+	s.g.tag(fmt.Sprintf("session=%s:%s-held", s.stName(), cmdNames[c]))
+}
+
+// the same for a message that was finished / requeued before, or an id nobody was given:
+// the non-fatal E_*_FAILED
+func (s *sess) answerGone(c int) {
+	post := ""
+	if c == cReq {
+		post = " " + []string{"0", "1000", "3600000"}[s.r.Intn(3)]
+	}
+	if len(s.dead) > 0 && s.r.Chance(60) {
+		slot := s.dead[s.r.Intn(len(s.dead))]
+		s.withID(cmdNames[c]+" ", slot, post)
+		s.g.cmdx(c, 0, true, int64(slot)+1)
+		s.g.tag(fmt.Sprintf("session=%s:%s-answered-before", s.stName(), cmdNames[c]))
+	} else {
+		s.line(cmdNames[c] + " " + s.g.randID() + post)
+		s.g.cmdx(c, 0, true, 0)
+		s.g.tag(fmt.Sprintf("session=%s:%s-foreign-id", s.stName(), cmdNames[c]))
+	}
+}
+
+// a command that must end the connection with a fatal error
+func (s *sess) fatal() {
+	c := []int{cFin, cReq, cTouch}[s.r.Intn(3)]
+	switch k := s.r.Intn(9); {
+	case k < 3: // malformed id: a held id with bytes appended, or a short one
+		post := ""
+		if c == cReq {
+			post = " 0"
+		}
+		if len(s.live) > 0 && s.r.Chance(60) {
+			s.withID(cmdNames[c]+" ", s.live[s.r.Intn(len(s.live))], []string{"x", "0", "0123456789abcdef"}[s.r.Intn(3)]+post)
 		} else {
-			// requeue with a long delay so that it is not redelivered during the case
-			withID("REQ ", slot, " "+[]string{"3600000", "60000", "99999999999999999999"}[r.Intn(3)])
-			g.cmd(cReq, 0, true)
-			g.tag("interactive=req")
+			s.line(cmdNames[c] + " " + s.g.randID()[:15] + post)
+		}
+		s.g.cmd(c, 0, false)
+		s.g.tag(fmt.Sprintf("session=%s:%s-malformed-id", s.stName(), cmdNames[c]))
+	case k == 3:
+		if s.state == 1 {
+			bad := s.g.pick(rdyBad)
+			s.line("RDY " + bad)
+			s.g.cmd(cRdy, 0, false)
+		} else {
+			s.line("CLS")
+			s.g.cmd(cCls, 0, true)
+		}
+	case k == 4:
+		s.line("SUB " + s.topic + " c2")
+		s.g.cmd(cSub, 0, true)
+	case k == 5:
+		s.line("IDENTIFY")
+		s.cur.Write(be(2))
+		s.cur.WriteString("{}")
+		s.g.cmd(cIdentify, 0, true)
+	case k == 6:
+		s.line("AUTH")
+		s.cur.Write(be(1))
+		s.cur.WriteString("x")
+		s.g.cmd(cAuth, 0, true)
+	case k == 7:
+		s.line([]string{"", "FOO", "fin", "FINISH 0123456789abcdef"}[s.r.Intn(4)])
+		s.g.cmd(cUnknown, 0, true)
+	default:
+		switch s.r.Intn(3) {
+		case 0:
+			s.line("PUB " + s.g.pick(badNames))
+			s.cur.Write(be(1))
+			s.cur.WriteString("x")
+			s.g.cmd(cPub, 1, false)
+		case 1:
+			s.line("PUB " + s.topic)
+			s.cur.Write(be([]int64{0, -1, maxMsg + 1}[s.r.Intn(3)]))
+			s.g.cmd(cPub, 1, false)
+		default:
+			s.line("REQ " + s.g.randID() + " " + []string{"x", "-1", "1.5"}[s.r.Intn(3)])
+			s.g.cmd(cReq, 0, false)
+		}
+	}
+	s.ended = true
+	s.g.tag("session=" + s.stName() + ":fatal")
+}
+
+// one command in the subscribed or the closing state
+func (s *sess) op() {
+	type choice struct {
+		w int
+		f func()
+	}
+	var cs []choice
+	add := func(w int, f func()) { cs = append(cs, choice{w, f}) }
+	if len(s.live) > 0 {
+		slot := s.live[s.r.Intn(len(s.live))]
+		add(5, func() { s.answerHeld(cFin, slot) })
+		add(5, func() { s.answerHeld(cReq, slot) })
+		add(4, func() { s.answerHeld(cTouch, slot) })
+	}
+	add(2, func() { s.answerGone(cFin) })
+	add(2, func() { s.answerGone(cReq) })
+	add(2, func() { s.answerGone(cTouch) })
+	add(3, func() {
+		if s.state == 1 {
+			s.line("RDY " + []string{"0", "1", "3", "10", ""}[s.r.Intn(5)])
+			s.g.cmd(cRdy, 0, true)
+		} else {
+			// ignored after CLS, whatever it says
+			if s.r.Chance(50) {
+				s.line("RDY " + s.g.pick(rdyGood))
+				s.g.cmd(cRdy, 0, true)
+			} else {
+				s.line("RDY " + s.g.pick(rdyBad))
+				s.g.cmd(cRdy, 0, false)
+			}
+		}
+	})
+	add(1, func() { s.line("NOP"); s.g.cmd(cNop, 0, true) })
+	add(2, func() { s.publish(cPub, 1) })
+	add(1, func() { s.publish(cMpub, 1+s.r.Intn(3)) })
+	add(1, func() { s.publish(cDpub, 1) })
+	add(2, s.fatal)
+	tot := 0
+	for _, c := range cs {
+		tot += c.w
+	}
+	k := s.r.Intn(tot)
+	for _, c := range cs {
+		if k < c.w {
+			c.f()
+			return
+		}
+		k -= c.w
+	}
+}
+
+func (s *sess) input(class, daemon string) Input {
+	s.flush()
+	return Input{Class: class, Daemon: daemon, Steps: s.steps, Intent: s.g.intent, Tags: s.g.tags, ChanTopic: s.topic, ChanName: "ch"}
+}
+
+func genSession(r *lib.Rand, k int, daemon string) Input {
+	s := newSess(r, fmt.Sprintf("ss%d_%d", k, r.Intn(1000000)))
+	if r.Chance(50) {
+		// options that do not change what is delivered (no sampling, no short message
+		// timeout, no compression)
+		m := map[string]interface{}{"client_id": "s", "feature_negotiation": r.Chance(50)}
+		if r.Chance(50) {
+			m["heartbeat_interval"] = []int{30000, 60000}[r.Intn(2)]
 		}
 		if r.Chance(30) {
-			line("FIN " + g.randID())
-			g.cmd(cFin, 0, true)
+			m["output_buffer_size"] = []int{64, 4096}[r.Intn(2)]
+			m["output_buffer_timeout"] = []int{25, 250}[r.Intn(2)]
 		}
-		slot++
-		if closing {
-			break // RDY is 0 after CLS: nothing more is delivered
+		if r.Chance(30) {
+			m["msg_timeout"] = []int{60000, 900000}[r.Intn(2)]
+		}
+		body, _ := json.Marshal(m)
+		s.line("IDENTIFY")
+		s.cur.Write(be(int64(len(body))))
+		s.cur.Write(body)
+		s.g.cmd(cIdentify, 0, true)
+		s.g.tag("session=identified")
+	}
+	p := 2 + r.Intn(3)
+	if r.Chance(30) {
+		s.publish(cMpub, p)
+	} else {
+		for i := 0; i < p; i++ {
+			s.publish([]int{cPub, cPub, cDpub}[r.Intn(3)], 1)
 		}
 	}
-	if r.Chance(50) {
-		line("NOP")
-		g.cmd(cNop, 0, true)
+	s.line("SUB " + s.topic + " ch")
+	s.g.cmd(cSub, 0, true)
+	s.state = 1
+	rdy := 1 + r.Intn(p)
+	s.line(fmt.Sprintf("RDY %d", rdy))
+	s.g.cmd(cRdy, 0, true)
+	s.wait(rdy)
+	for n := r.Intn(4); n > 0 && !s.ended; n-- {
+		s.op()
 	}
-	if r.Chance(40) {
-		line("RDY 3")
-		g.cmd(cRdy, 0, true)
+	if !s.ended && r.Chance(75) {
+		s.line("CLS")
+		s.g.cmd(cCls, 0, true)
+		s.state = 2
+		s.g.tag(fmt.Sprintf("session=cls-holding-%d", len(s.live)))
+		for n := 1 + r.Intn(6); n > 0 && !s.ended; n-- {
+			s.op()
+		}
 	}
-	flush()
-	return Input{Class: "interactive", Daemon: "inproc", Steps: steps, Intent: g.intent, Tags: g.tags}
+	if s.ended && r.Chance(40) {
+		// what follows a fatal error must not be executed
+		if len(s.live) > 0 && r.Chance(60) {
+			s.withID("FIN ", s.live[0], "")
+			s.g.cmdx(cFin, 0, true, int64(s.live[0])+1)
+		} else {
+			s.publish(cPub, 1)
+		}
+		s.g.tag("session=commands-after-fatal")
+	}
+	return s.input("session", daemon)
+}
+
+// held: the fixed part of the sessions, on every run: two messages in flight; FIN / REQ /
+// TOUCH of the first one, in the subscribed and in the closing state, must succeed
+// silently; the same command again gets the non-fatal error (TOUCH: succeeds again);
+// the second message stays in flight; a publish in the same state closes the sequence.
+func genHeld(seed int, variant int) Input {
+	s := newSess(nil, fmt.Sprintf("hd%d_%d", seed, variant))
+	c := []int{cFin, cReq, cTouch, cReq}[variant/2] // variant 6: REQ with a delay after CLS
+	s.publish(cMpub, 2)
+	s.line("SUB " + s.topic + " ch")
+	s.g.cmd(cSub, 0, true)
+	s.state = 1
+	s.line("RDY 2")
+	s.g.cmd(cRdy, 0, true)
+	s.wait(2)
+	if variant%2 == 1 || variant == 6 {
+		s.line("CLS")
+		s.g.cmd(cCls, 0, true)
+		s.state = 2
+	}
+	post, n := "", int64(0)
+	if c == cReq {
+		post, n = " 60000", 1
+		if s.state == 2 && variant != 6 {
+			post, n = " 0", 0
+		}
+	}
+	for i := 0; i < 2; i++ {
+		s.withID(cmdNames[c]+" ", 0, post)
+		s.g.cmdx(c, n, true, 1) // the second time a finished / requeued message is no longer in flight
+	}
+	s.withID("TOUCH ", 1, "")
+	s.g.cmdx(cTouch, 0, true, 2)
+	s.publish(cPub, 1)
+	s.g.tag(fmt.Sprintf("held=%s:%s%s", s.stName(), cmdNames[c], post))
+	return s.input("held", []string{"inproc", "sub"}[(variant/2+variant)%2])
+}
+
+// the connection states of the protocol table and one way into each
+var statePreludes = []struct {
+	name, s string
+	intent  [][]int64
+}{
+	{"init", "", nil},
+	{"ident", "IDENTIFY\n\x00\x00\x00\x02{}", [][]int64{{cIdentify, 0, 1}}},
+	{"sub", "SUB t1 c1\n", [][]int64{{cSub, 0, 1}}},
+	{"closing", "SUB t1 c1\nCLS\n", [][]int64{{cSub, 0, 1}, {cCls, 0, 1}}},
+}
+
+// every command once with parameters the protocol admits and once with parameters it
+// refuses ("" = the command has none)
+var stateCmds = []struct {
+	idx       int64
+	n         int64
+	good, bad string
+}{
+	{cIdentify, 0, "IDENTIFY\n\x00\x00\x00\x02{}", "IDENTIFY\n\x00\x00\x00\x1a{\"heartbeat_interval\":999}"},
+	{cSub, 0, "SUB t2 c2\n", "SUB t2 bad$\n"},
+	{cRdy, 0, "RDY 1\n", "RDY 11\n"},
+	{cFin, 0, "FIN 0123456789abcdef\n", "FIN 0123456789abcde\n"},
+	{cReq, 0, "REQ 0123456789abcdef 0\n", "REQ 0123456789abcdef x\n"},
+	{cTouch, 0, "TOUCH 0123456789abcdef\n", "TOUCH 0123456789abcdef0\n"},
+	{cCls, 0, "CLS\n", ""},
+	{cNop, 0, "NOP\n", ""},
+	{cPub, 1, "PUB t1\n\x00\x00\x00\x01p", "PUB bad$\n\x00\x00\x00\x01p"},
+	{cMpub, 2, "MPUB t1\n\x00\x00\x00\x0e\x00\x00\x00\x02\x00\x00\x00\x01a\x00\x00\x00\x01b", "MPUB t1\n\x00\x00\x00\x09\x00\x00\x00\x00\x00\x00\x00\x01a"},
+	{cDpub, 1, "DPUB t1 0\n\x00\x00\x00\x01d", "DPUB t1 x\n\x00\x00\x00\x01d"},
+	{cAuth, 0, "AUTH\n\x00\x00\x00\x01x", "AUTH x\n\x00\x00\x00\x01x"},
+	{cUnknown, 0, "BOGUS\n", ""},
 }
 
 // boundary: a fixed sweep, run first on every run, of each numeric field and name at, just
@@ -955,7 +1264,7 @@ func genInteractive(r *lib.Rand, k int) Input {
 // and then)
 func genBoundary() []Input {
 	var ins []Input
-	add := func(tag string, stream []byte, intent [][3]int64) {
+	add := func(tag string, stream []byte, intent [][]int64) {
 		ins = append(ins, Input{Class: "boundary", Daemon: "sub", Steps: []Step{send(append([]byte("  V2"), stream...))}, Intent: intent, Tags: []string{"boundary=" + tag}})
 	}
 	b2i := func(b bool) int64 {
@@ -973,13 +1282,13 @@ func genBoundary() []Input {
 				// feature_negotiation: the JSON answer then shows the values the daemon adopted
 				body, _ := json.Marshal(map[string]interface{}{f.name: v, "feature_negotiation": true})
 				add(fmt.Sprintf("IDENTIFY.%s=%v", f.name, v), cat([]byte("IDENTIFY\n"), be(int64(len(body))), body, onePub),
-					[][3]int64{{cIdentify, 0, b2i(gi == 0)}, {cPub, 1, 1}})
+					[][]int64{{cIdentify, 0, b2i(gi == 0)}, {cPub, 1, 1}})
 			}
 		}
 	}
 	for _, lv := range []int{-3, 0, 1, 6, 7, 9} { // deflate level is clamped, never refused
 		body, _ := json.Marshal(map[string]interface{}{"feature_negotiation": true, "deflate": true, "deflate_level": lv})
-		add(fmt.Sprintf("IDENTIFY.deflate_level=%d", lv), cat([]byte("IDENTIFY\n"), be(int64(len(body))), body), [][3]int64{{cIdentify, 0, 1}})
+		add(fmt.Sprintf("IDENTIFY.deflate_level=%d", lv), cat([]byte("IDENTIFY\n"), be(int64(len(body))), body), [][]int64{{cIdentify, 0, 1}})
 	}
 	for _, n := range []int64{0, 1, maxBody, maxBody + 1, -1} {
 		body := bytes.Repeat([]byte(" "), int(maxBody)+1)
@@ -988,12 +1297,12 @@ func genBoundary() []Input {
 		if have < 2 {
 			have = 2
 		}
-		add(fmt.Sprintf("IDENTIFY.size=%d", n), cat([]byte("IDENTIFY\n"), be(n), body[:have]), [][3]int64{{cIdentify, 0, b2i(n >= 2 && n <= maxBody)}})
+		add(fmt.Sprintf("IDENTIFY.size=%d", n), cat([]byte("IDENTIFY\n"), be(n), body[:have]), [][]int64{{cIdentify, 0, b2i(n >= 2 && n <= maxBody)}})
 	}
 	// RDY
 	for gi, vals := range [][]string{rdyGood, rdyBad} {
 		for _, v := range vals {
-			add("RDY="+v, cat([]byte("SUB t1 c1\nRDY "+v+"\n"), onePub), [][3]int64{{cSub, 0, 1}, {cRdy, 0, b2i(gi == 0)}, {cPub, 1, 1}})
+			add("RDY="+v, cat([]byte("SUB t1 c1\nRDY "+v+"\n"), onePub), [][]int64{{cSub, 0, 1}, {cRdy, 0, b2i(gi == 0)}, {cPub, 1, 1}})
 		}
 	}
 	// PUB / DPUB sizes
@@ -1004,26 +1313,26 @@ func genBoundary() []Input {
 		}
 		ok := b2i(n >= 1 && n <= maxMsg)
 		body := bytes.Repeat([]byte("b"), int(have))
-		add(fmt.Sprintf("PUB.size=%d", n), cat([]byte("PUB t1\n"), be(n), body, onePub), [][3]int64{{cPub, 1, ok}, {cPub, 1, 1}})
-		add(fmt.Sprintf("DPUB.size=%d", n), cat([]byte("DPUB t1 5\n"), be(n), body, onePub), [][3]int64{{cDpub, 1, ok}, {cPub, 1, 1}})
+		add(fmt.Sprintf("PUB.size=%d", n), cat([]byte("PUB t1\n"), be(n), body, onePub), [][]int64{{cPub, 1, ok}, {cPub, 1, 1}})
+		add(fmt.Sprintf("DPUB.size=%d", n), cat([]byte("DPUB t1 5\n"), be(n), body, onePub), [][]int64{{cDpub, 1, ok}, {cPub, 1, 1}})
 	}
 	for gi, vals := range [][]string{deferGood, deferBad} {
 		for _, v := range vals {
-			add("DPUB.defer="+v, cat([]byte("DPUB t1 "+v+"\n"), be(1), []byte("d"), onePub), [][3]int64{{cDpub, 1, b2i(gi == 0)}, {cPub, 1, 1}})
+			add("DPUB.defer="+v, cat([]byte("DPUB t1 "+v+"\n"), be(1), []byte("d"), onePub), [][]int64{{cDpub, 1, b2i(gi == 0)}, {cPub, 1, 1}})
 		}
 	}
 	// REQ delays on a message that is not in flight: E_REQ_FAILED (non-fatal) or E_INVALID
 	for _, v := range []string{"0", "3600000", "3600001", "99999999999999999999", "x", "-1", ""} {
-		add("REQ.delay="+v, cat([]byte("SUB t1 c1\nREQ 0123456789abcdef "+v+"\n"), onePub), [][3]int64{{cSub, 0, 1}, {cReq, 0, b2i(v != "x" && v != "-1")}, {cPub, 1, 1}})
-		add("REQ.idlen=17,delay="+v, cat([]byte("SUB t1 c1\nREQ 0123456789abcdefg "+v+"\n"), onePub), [][3]int64{{cSub, 0, 1}, {cReq, 0, 0}, {cPub, 1, 1}})
+		add("REQ.delay="+v, cat([]byte("SUB t1 c1\nREQ 0123456789abcdef "+v+"\n"), onePub), [][]int64{{cSub, 0, 1}, {cReq, 0, b2i(v != "x" && v != "-1")}, {cPub, 1, 1}})
+		add("REQ.idlen=17,delay="+v, cat([]byte("SUB t1 c1\nREQ 0123456789abcdefg "+v+"\n"), onePub), [][]int64{{cSub, 0, 1}, {cReq, 0, 0}, {cPub, 1, 1}})
 	}
 	for _, l := range []int{0, 15, 16, 17, 32} {
 		id := strings.Repeat("a", l)
 		for _, c := range []int{cFin, cTouch} {
-			add(fmt.Sprintf("%s.idlen=%d", cmdNames[c], l), cat([]byte("SUB t1 c1\n"+cmdNames[c]+" "+id+"\n"), onePub), [][3]int64{{cSub, 0, 1}, {int64(c), 0, b2i(l == 16)}, {cPub, 1, 1}})
+			add(fmt.Sprintf("%s.idlen=%d", cmdNames[c], l), cat([]byte("SUB t1 c1\n"+cmdNames[c]+" "+id+"\n"), onePub), [][]int64{{cSub, 0, 1}, {int64(c), 0, b2i(l == 16)}, {cPub, 1, 1}})
 			// the same as the last command of the stream, and after CLS
-			add(fmt.Sprintf("%s.idlen=%d(last)", cmdNames[c], l), []byte("SUB t1 c1\n"+cmdNames[c]+" "+id+"\n"), [][3]int64{{cSub, 0, 1}, {int64(c), 0, b2i(l == 16)}})
-			add(fmt.Sprintf("%s.idlen=%d(closing)", cmdNames[c], l), cat([]byte("SUB t1 c1\nCLS\n"+cmdNames[c]+" "+id+"\n"), onePub), [][3]int64{{cSub, 0, 1}, {cCls, 0, 1}, {int64(c), 0, b2i(l == 16)}, {cPub, 1, 1}})
+			add(fmt.Sprintf("%s.idlen=%d(last)", cmdNames[c], l), []byte("SUB t1 c1\n"+cmdNames[c]+" "+id+"\n"), [][]int64{{cSub, 0, 1}, {int64(c), 0, b2i(l == 16)}})
+			add(fmt.Sprintf("%s.idlen=%d(closing)", cmdNames[c], l), cat([]byte("SUB t1 c1\nCLS\n"+cmdNames[c]+" "+id+"\n"), onePub), [][]int64{{cSub, 0, 1}, {cCls, 0, 1}, {int64(c), 0, b2i(l == 16)}, {cPub, 1, 1}})
 		}
 	}
 	// MPUB: count and declared size at their limits (1-byte messages: 5 bytes each)
@@ -1043,12 +1352,12 @@ func genBoundary() []Input {
 		if blen > maxBody { // keep the size field legal so that the count test is what refuses
 			blen = maxBody
 		}
-		add(fmt.Sprintf("MPUB.count=%d", k), cat([]byte("MPUB t1\n"), be(blen), batch.Bytes()), [][3]int64{{cMpub, k, b2i(ok)}})
+		add(fmt.Sprintf("MPUB.count=%d", k), cat([]byte("MPUB t1\n"), be(blen), batch.Bytes()), [][]int64{{cMpub, k, b2i(ok)}})
 	}
 	for _, blen := range []int64{-1, 0, 1, 8, 9, 10, maxBody, maxBody + 1} {
 		// one 1-byte message needs 4 + 4 + 1 = 9 bytes
 		add(fmt.Sprintf("MPUB.size=%d(needs 9)", blen), cat([]byte("MPUB t1\n"), be(blen), be(1), be(1), []byte("m"), onePub),
-			[][3]int64{{cMpub, 1, b2i(blen >= 9 && blen <= maxBody)}, {cPub, 1, 1}})
+			[][]int64{{cMpub, 1, b2i(blen >= 9 && blen <= maxBody)}, {cPub, 1, 1}})
 	}
 	for _, sz := range []int64{-1, 0, 1, maxMsg, maxMsg + 1} {
 		have := sz
@@ -1058,7 +1367,7 @@ func genBoundary() []Input {
 		body := bytes.Repeat([]byte("q"), int(have))
 		// two good messages, then the probed one LAST
 		batch := cat(be(3), be(1), []byte("a"), be(1), []byte("b"), be(sz), body)
-		add(fmt.Sprintf("MPUB.lastmsgsize=%d", sz), cat([]byte("MPUB t1\n"), be(int64(len(batch))), batch), [][3]int64{{cMpub, 3, b2i(sz >= 1 && sz <= maxMsg)}})
+		add(fmt.Sprintf("MPUB.lastmsgsize=%d", sz), cat([]byte("MPUB t1\n"), be(int64(len(batch))), batch), [][]int64{{cMpub, 3, b2i(sz >= 1 && sz <= maxMsg)}})
 	}
 	// names
 	names := []struct {
@@ -1069,27 +1378,29 @@ func genBoundary() []Input {
 		{"a.b_c-9Z", true}, {"a b", false}, {"a/b", false}, {"a@", false}, {"[", false}, {"`", false}, {"{", false}}
 	for _, nm := range names {
 		if !strings.Contains(nm.n, " ") {
-			add(fmt.Sprintf("PUB.topic=%q", nm.n), cat([]byte("PUB "+nm.n+"\n"), be(1), []byte("n"), onePub), [][3]int64{{cPub, 1, b2i(nm.ok)}, {cPub, 1, 1}})
-			add(fmt.Sprintf("SUB.channel=%q", nm.n), cat([]byte("SUB t1 "+nm.n+"\n"), onePub), [][3]int64{{cSub, 0, b2i(nm.ok)}, {cPub, 1, 1}})
+			add(fmt.Sprintf("PUB.topic=%q", nm.n), cat([]byte("PUB "+nm.n+"\n"), be(1), []byte("n"), onePub), [][]int64{{cPub, 1, b2i(nm.ok)}, {cPub, 1, 1}})
+			add(fmt.Sprintf("SUB.channel=%q", nm.n), cat([]byte("SUB t1 "+nm.n+"\n"), onePub), [][]int64{{cSub, 0, b2i(nm.ok)}, {cPub, 1, 1}})
 			if !strings.HasSuffix(nm.n, "#ephemeral") {
-				add(fmt.Sprintf("SUB.topic=%q", nm.n), cat([]byte("SUB "+nm.n+" c1\n"), onePub), [][3]int64{{cSub, 0, b2i(nm.ok)}, {cPub, 1, 1}})
+				add(fmt.Sprintf("SUB.topic=%q", nm.n), cat([]byte("SUB "+nm.n+" c1\n"), onePub), [][]int64{{cSub, 0, b2i(nm.ok)}, {cPub, 1, 1}})
 			}
 		}
 	}
-	// states: every command as the first one, and after SUB, and after SUB + CLS
-	for _, pre := range []struct {
-		s      string
-		intent [][3]int64
-	}{{"", nil}, {"SUB t1 c1\n", [][3]int64{{cSub, 0, 1}}}, {"SUB t1 c1\nCLS\n", [][3]int64{{cSub, 0, 1}, {cCls, 0, 1}}}} {
-		for _, c := range []struct {
-			s   string
-			idx int64
-		}{{"IDENTIFY\n\x00\x00\x00\x02{}", cIdentify}, {"SUB t2 c2\n", cSub}, {"RDY 1\n", cRdy}, {"FIN 0123456789abcdef\n", cFin},
-			{"REQ 0123456789abcdef 0\n", cReq}, {"TOUCH 0123456789abcdef\n", cTouch}, {"CLS\n", cCls}, {"NOP\n", cNop},
-			{"AUTH\n\x00\x00\x00\x01x", cAuth}, {"BOGUS\n", cUnknown}, {"\n", cUnknown}} {
-			in := append(append([][3]int64{}, pre.intent...), [3]int64{c.idx, 0, 1}, [3]int64{cPub, 1, 1})
-			add(fmt.Sprintf("state:%q+%s", pre.s, cmdNames[c.idx]), cat([]byte(pre.s+c.s), onePub), in)
+	// states: the whole (command x connection state) table, with parameters the protocol
+	// admits and with parameters it refuses: every command as the first one, after an
+	// IDENTIFY, after SUB, and after SUB + CLS (FIN / REQ / TOUCH of a message that really
+	// is in flight: genHeld and the sessions)
+	for _, pre := range statePreludes {
+		for _, c := range stateCmds {
+			for vi, str := range []string{c.good, c.bad} {
+				if str == "" {
+					continue
+				}
+				in := append(append([][]int64{}, pre.intent...), []int64{c.idx, c.n, b2i(vi == 0)}, []int64{cPub, 1, 1})
+				add(fmt.Sprintf("state:%s+%s(%s)", pre.name, cmdNames[c.idx], []string{"valid", "invalid"}[vi]), cat([]byte(pre.s+str), onePub), in)
+			}
 		}
+		in := append(append([][]int64{}, pre.intent...), []int64{cUnknown, 0, 1}, []int64{cPub, 1, 1})
+		add(fmt.Sprintf("state:%s+empty-line", pre.name), cat([]byte(pre.s+"\n"), onePub), in)
 	}
 	return ins
 }
@@ -1127,15 +1438,15 @@ func genProbes() []Input {
 		}
 		for _, pre := range []struct {
 			s      string
-			intent [][3]int64
-		}{{"", nil}, {"SUB t1 c1\n", [][3]int64{{cSub, 0, 1}}}, {"SUB t1 c1\nCLS\n", [][3]int64{{cSub, 0, 1}, {cCls, 0, 1}}}} {
+			intent [][]int64
+		}{{"", nil}, {"SUB t1 c1\n", [][]int64{{cSub, 0, 1}}}, {"SUB t1 c1\nCLS\n", [][]int64{{cSub, 0, 1}, {cCls, 0, 1}}}} {
 			var buf bytes.Buffer
 			buf.WriteString("  V2" + pre.s)
 			buf.Write(lit)
 			buf.WriteString("\nPUB t1\n")
 			buf.Write(be(1))
 			buf.WriteString("z")
-			in := append(append([][3]int64{}, pre.intent...), [3]int64{cUnknown, 0, 1}, [3]int64{cPub, 1, 1})
+			in := append(append([][]int64{}, pre.intent...), []int64{cUnknown, 0, 1}, []int64{cPub, 1, 1})
 			ins = append(ins, Input{Class: "probe-new-command", Daemon: "sub", Steps: []Step{send(buf.Bytes())}, Intent: in,
 				Tags: []string{fmt.Sprintf("probe=%q handler=%s", lit, m[2])}})
 		}
@@ -1145,7 +1456,7 @@ func genProbes() []Input {
 
 // overlong: a message is delivered and held; then FIN / REQ / TOUCH names it with extra
 // bytes appended to its id.  The id is malformed: fatal E_INVALID, and the message is still
-// held by the channel afterwards.
+// held by the channel afterwards (the channel's counters after the case).
 func genOverlong(k int, variant int) Input {
 	topic := fmt.Sprintf("ol%d_%d", k, variant)
 	g := &gen{}
@@ -1161,7 +1472,7 @@ func genOverlong(k int, variant int) Input {
 	steps = append(steps, send(cur.Bytes()), Step{K: "wait"})
 	if variant&1 == 1 {
 		steps = append(steps, Step{K: "sendid", Hex: hex.EncodeToString([]byte("TOUCH ")), Slot: 0, Post: hex.EncodeToString([]byte("\n"))})
-		g.cmd(cTouch, 0, true)
+		g.cmdx(cTouch, 0, true, 1)
 	}
 	if variant&2 == 2 {
 		steps = append(steps, send([]byte("CLS\n")))
@@ -1178,9 +1489,8 @@ func genOverlong(k int, variant int) Input {
 	// what follows must not be executed
 	steps = append(steps, send([]byte("NOP\n")))
 	g.cmd(cNop, 0, true)
-	one := int64(1)
 	return Input{Class: "overlong-id", Daemon: "inproc", Steps: steps, Intent: g.intent,
-		Tags: append(g.tags, fmt.Sprintf("overlong=%s+%dbytes", cmdNames[c], len(extra))), Held: &one, HeldTopic: topic, HeldChan: "ch"}
+		Tags: append(g.tags, fmt.Sprintf("overlong=%s+%dbytes", cmdNames[c], len(extra))), ChanTopic: topic, ChanName: "ch"}
 }
 
 // ---------------------------------------------------------------- daemons
@@ -1342,37 +1652,61 @@ func (d *daemon) messageCount() (int64, bool) {
 	return s, true
 }
 
-// in-flight + deferred messages of one channel; -1 = the channel is not listed
-func (d *daemon) heldCount(topic, ch string) int64 {
+// the counters of one channel after a case: messages left (topic depth + channel depth +
+// in flight + deferred), in flight, deferred, requeue_count; all -1 = the channel is not
+// listed.  The topic's pump hands messages to the channel asynchronously: the counters are
+// read once it has handed over everything (channel message_count = topic message_count,
+// an exact condition that always comes true on a topic with one channel) and two
+// consecutive readings agree (/stats is not one atomic snapshot).
+func (d *daemon) chanObs(topic, ch string) [4]int64 {
 	c := http.Client{Timeout: 5 * time.Second}
-	resp, err := c.Get("http://" + d.http + "/stats?format=json")
-	if err != nil {
-		return -1
-	}
-	defer resp.Body.Close()
-	var st struct {
-		Topics []struct {
-			Name     string `json:"topic_name"`
-			Channels []struct {
-				Name     string `json:"channel_name"`
-				InFlight int64  `json:"in_flight_count"`
-				Deferred int64  `json:"deferred_count"`
-			} `json:"channels"`
-		} `json:"topics"`
-	}
-	if json.NewDecoder(resp.Body).Decode(&st) != nil {
-		return -1
-	}
-	for _, t := range st.Topics {
-		if t.Name == topic {
-			for _, c := range t.Channels {
-				if c.Name == ch {
-					return c.InFlight + c.Deferred
+	obs := [4]int64{-1, -1, -1, -1}
+	prev, prevSettled := obs, false
+	deadline := time.Now().Add(5 * time.Second)
+	for {
+		resp, err := c.Get("http://" + d.http + "/stats?format=json&topic=" + topic)
+		if err != nil {
+			return obs
+		}
+		var st struct {
+			Topics []struct {
+				Name     string `json:"topic_name"`
+				Depth    int64  `json:"depth"`
+				Count    int64  `json:"message_count"`
+				Channels []struct {
+					Name     string `json:"channel_name"`
+					Depth    int64  `json:"depth"`
+					InFlight int64  `json:"in_flight_count"`
+					Deferred int64  `json:"deferred_count"`
+					Count    int64  `json:"message_count"`
+					Requeues int64  `json:"requeue_count"`
+				} `json:"channels"`
+			} `json:"topics"`
+		}
+		err = json.NewDecoder(resp.Body).Decode(&st)
+		resp.Body.Close()
+		if err != nil {
+			return obs
+		}
+		settled := false
+		for _, t := range st.Topics {
+			if t.Name == topic {
+				for _, c := range t.Channels {
+					if c.Name == ch {
+						obs = [4]int64{t.Depth + c.Depth + c.InFlight + c.Deferred, c.InFlight, c.Deferred, c.Requeues}
+						settled = c.Count == t.Count
+					}
 				}
 			}
 		}
+		if (settled && prevSettled && obs == prev) || time.Now().After(deadline) {
+			return obs
+		}
+		if !settled {
+			time.Sleep(2 * time.Millisecond)
+		}
+		prev, prevSettled = obs, settled
 	}
-	return -1
 }
 
 // ---------------------------------------------------------------- frames
@@ -1533,6 +1867,113 @@ type runner struct {
 	daemons map[string]*daemon
 	aborted int
 	crashes int
+	pairs   map[string]int // (connection state : command : argument class) -> cases that executed it
+}
+
+// ---------------------------------------------------------------- pair coverage
+var pairStates = []string{"init", "ident", "sub", "closing"}
+
+// the cells of the (connection state x command x argument class) table: every command
+// with parameters the protocol admits ("valid") and, where it has parameters, with
+// parameters it refuses ("invalid"); FIN / REQ / TOUCH also naming a message the
+// connection really holds ("held"), in the two states in which it can hold one
+func allPairs() []string {
+	var ps []string
+	for _, st := range pairStates {
+		for i, c := range cmdNames {
+			ps = append(ps, fmt.Sprintf("pair=%s:%s:valid", st, c))
+			if i != cCls && i != cNop && i != cUnknown {
+				ps = append(ps, fmt.Sprintf("pair=%s:%s:invalid", st, c))
+			}
+			if (i == cFin || i == cReq || i == cTouch) && (st == "sub" || st == "closing") {
+				ps = append(ps, fmt.Sprintf("pair=%s:%s:held", st, c))
+			}
+		}
+	}
+	return ps
+}
+
+// the cells a case EXECUTED: the generator's command list replayed against the protocol
+// table up to and including the first command that must fail fatally (the monitor checks
+// that the recording is exactly this replay), or up to a negotiated upgrade
+func pairTags(intent [][]int64, ndeliv int, respN int, upgraded bool) []string {
+	var out []string
+	state, ident := 0, false
+	dead := map[int64]bool{}
+	resps := 0
+	for _, e := range intent {
+		c, valid, slot := int(e[0]), e[2] != 0, int64(0)
+		if len(e) > 3 {
+			slot = e[3]
+		}
+		if c < 0 || c > cUnknown {
+			c = cUnknown
+		}
+		st := []string{"init", "sub", "closing"}[state]
+		if state == 0 && ident {
+			st = "ident"
+		}
+		held := (c == cFin || c == cReq || c == cTouch) && valid && slot >= 1 && slot <= int64(ndeliv) && !dead[slot]
+		class := "valid"
+		switch {
+		case c == cCls || c == cNop || c == cUnknown:
+		case !valid:
+			class = "invalid"
+		case held:
+			class = "held"
+		}
+		out = append(out, fmt.Sprintf("pair=%s:%s:%s", st, cmdNames[c], class))
+		inState := false
+		switch c {
+		case cIdentify, cAuth, cSub:
+			inState = state == 0
+		case cRdy, cFin, cReq, cTouch:
+			inState = state != 0
+		case cCls:
+			inState = state == 1
+		case cPub, cMpub, cDpub, cNop:
+			inState = true
+		}
+		if !inState {
+			break
+		}
+		fatal := false
+		switch c {
+		case cRdy:
+			fatal = state == 1 && !valid
+		case cFin, cReq, cTouch:
+			fatal = !valid
+			if held && c != cTouch {
+				dead[slot] = true
+			}
+		case cAuth:
+			fatal = true
+		case cSub:
+			fatal = !valid || slot != 0
+			if !fatal {
+				state = 1
+				resps++
+			}
+		case cCls:
+			state = 2
+			resps++
+		case cIdentify:
+			fatal = !valid
+			if !fatal {
+				ident = true
+				resps++
+			}
+		case cPub, cMpub, cDpub:
+			fatal = !valid
+			if !fatal {
+				resps++
+			}
+		}
+		if fatal || (upgraded && resps >= respN) {
+			break
+		}
+	}
+	return out
 }
 
 func (rn *runner) daemon(name string) *daemon {
@@ -1772,19 +2213,31 @@ func (rn *runner) run(name string, in Input) {
 	if in.Intent != nil {
 		ps := make([]string, len(in.Intent))
 		for i, e := range in.Intent {
-			ps[i] = fmt.Sprintf("(%d, %s, %s)", e[0], lib.CoqZ(e[1]), lib.CoqBool(e[2] != 0))
+			slot := int64(0)
+			if len(e) > 3 {
+				slot = e[3]
+			}
+			ps[i] = fmt.Sprintf("(%d, %s, %s, %s)", e[0], lib.CoqZ(e[1]), lib.CoqBool(e[2] != 0), lib.CoqZ(slot))
 		}
 		intent = "(Some " + lib.CoqList(ps) + ")"
 	}
-	held := "None"
-	var heldObs int64 = -2
-	if in.Held != nil && alive {
-		heldObs = d.heldCount(in.HeldTopic, in.HeldChan)
-		held = fmt.Sprintf("(Some (%s, %s))", lib.CoqZ(*in.Held), lib.CoqZ(heldObs))
-		tags = append(tags, fmt.Sprintf("held=%d", heldObs))
+	chanT := "None"
+	var chanObs interface{}
+	if in.ChanTopic != "" && alive {
+		ob := d.chanObs(in.ChanTopic, in.ChanName)
+		chanObs = ob
+		chanT = fmt.Sprintf("(Some (%s, %s, %s, %s))", lib.CoqZ(ob[0]), lib.CoqZ(ob[1]), lib.CoqZ(ob[2]), lib.CoqZ(ob[3]))
+		tags = append(tags, fmt.Sprintf("chan:in-flight=%d", ob[1]), fmt.Sprintf("chan:deferred=%d", ob[2]), fmt.Sprintf("chan:requeues=%d", ob[3]))
 	}
 	coq := fmt.Sprintf("(J09.Conn %s %s %s %s %s %s %s %s %s %s %s)", d.coqCfg, lib.CoqBytes(stream.Bytes()), jsonTable(stream.Bytes()),
-		lib.CoqList(idStrs), full, lib.CoqList(coqFrames), lib.CoqZ(enq), lib.CoqBool(alive), lib.CoqBool(bystOK), intent, held)
+		lib.CoqList(idStrs), full, lib.CoqList(coqFrames), lib.CoqZ(enq), lib.CoqBool(alive), lib.CoqBool(bystOK), intent, chanT)
+	if in.Daemon != "tls" {
+		pt := pairTags(in.Intent, len(ids), respN, upgraded)
+		for _, t := range pt {
+			rn.pairs[t]++
+		}
+		tags = append(tags, pt...)
+	}
 	alltags := append([]string{"class=" + in.Class, "daemon=" + in.Daemon}, in.Tags...)
 	alltags = append(alltags, tags...)
 	if enq > 0 {
@@ -1796,7 +2249,7 @@ func (rn *runner) run(name string, in Input) {
 	alltags = dedupe(alltags)
 	rn.o.Emit(lib.Case{Name: name, Coq: coq, Input: in, Tags: alltags,
 		Nontrivial: respN > 0 || enq > 0 || len(coqFrames) > 1,
-		Obs:        map[string]interface{}{"frames": coqFrames, "enqueued": enq, "alive": alive, "bystander": bystOK, "stream_len": stream.Len(), "msgs_received": len(ids), "held_after": heldObs}})
+		Obs:        map[string]interface{}{"frames": coqFrames, "enqueued": enq, "alive": alive, "bystander": bystOK, "stream_len": stream.Len(), "msgs_received": len(ids), "chan_after": chanObs}})
 }
 
 func dedupe(xs []string) []string {
@@ -1820,7 +2273,7 @@ func main() {
 	flag.Parse()
 	o := lib.NewOut(*out)
 	defer o.Close()
-	rn := &runner{o: o, daemons: map[string]*daemon{}}
+	rn := &runner{o: o, daemons: map[string]*daemon{}, pairs: map[string]int{}}
 	defer func() {
 		for _, d := range rn.daemons {
 			d.stop()
@@ -1849,6 +2302,9 @@ func main() {
 	for v := 0; v < 36; v += 1 + int(*seed%3) { // every run: a third to all of the 36 variants
 		rn.run(fmt.Sprintf("overlong-%d", v), genOverlong(int(*seed%100000), v))
 	}
+	for v := 0; v < 7; v++ {
+		rn.run(fmt.Sprintf("held-%d", v), genHeld(int(*seed%100000), v))
+	}
 	r := lib.NewRand(*seed)
 	long := 0
 	for k := 0; k < *n; k++ {
@@ -1856,10 +2312,12 @@ func main() {
 		var in Input
 		p := rr.Intn(100)
 		switch {
-		case p < 40:
+		case p < 36:
 			in = genGrammar(rr, "grammar", false, "inproc")
-		case p < 66:
+		case p < 60:
 			in = genGrammar(rr, "mutated", true, "sub")
+		case p < 66:
+			in = genSession(rr, k, "sub")
 		case p < 74:
 			in = genTruncated(rr)
 		case p < 78:
@@ -1870,12 +2328,22 @@ func main() {
 		case p < 84:
 			in = genGrammar(rr, "tls-required", false, "tls")
 		case p < 91:
-			in = genInteractive(rr, k)
+			in = genSession(rr, k, "inproc")
 		default:
 			in = genGarbage(rr)
 		}
 		rn.run(fmt.Sprintf("%s-%d", in.Class, k), in)
 	}
+	covered, missing := 0, []string{}
+	for _, p := range allPairs() {
+		if rn.pairs[p] > 0 {
+			covered++
+		} else {
+			missing = append(missing, strings.TrimPrefix(p, "pair="))
+		}
+	}
+	o.Stat("pairs_state_x_command_x_argclass_executed", fmt.Sprintf("%d/%d", covered, len(allPairs())))
+	o.Stat("pairs_not_executed", missing)
 	o.Stat("interactive_cases_aborted_no_delivery", rn.aborted)
 	o.Stat("daemon_deaths", rn.crashes)
 }
